@@ -49,6 +49,14 @@ def reference(N, toks):
             out.append('cloned')
         elif name == 'skip':
             out.append(l[n] if n < len(l) else None)
+        elif name == 'fold':
+            out.append(('fold', list(l)))
+        elif name == 'rfold':
+            out.append(('rfold', list(reversed(l))))
+        elif name == 'count':
+            out.append(('count', len(l)))
+        elif name == 'last':
+            out.append(l[-1] if l else None)
         elif name == 'stepby':
             out.append(tuple(l[i * n] if i * n < len(l) else None for i in range(3)))
     return out
@@ -81,7 +89,7 @@ def generate(tier, rng, mode):
             depth = min(N + 1, 4) if N <= 3 else 3
         e.extra['depth'] = depth
         alpha = alphabet(N)
-        suffix = ['len:0', 'next:0', 'back:0', 'len:0']
+        suffix = ['len:0', 'fold:0', 'rfold:0', 'count:0', 'last:0', 'next:0', 'back:0', 'len:0']
         for d in range(1, depth + 1):
             if d < depth and d > 1:
                 continue  # shorter histories are prefixes of the longer ones
@@ -108,8 +116,10 @@ def generate(tier, rng, mode):
                     toks.append('nthback:%d:%d' % (s, kk))
                 elif r < 0.82:
                     toks.append('len:%d' % s)
-                elif r < 0.88:
+                elif r < 0.85:
                     toks.append('hint:%d' % s)
+                elif r < 0.88:
+                    toks.append('%s:%d' % (rng.choice(['fold', 'rfold', 'count', 'last']), s))
                 elif r < 0.94:
                     toks.append('skip:%d:%d' % (s, kk))
                 else:
@@ -146,6 +156,10 @@ def run(tier, seed, rng):
                         ok &= t == 'cloned'
                     elif isinstance(r, tuple) and r and r[0] == 'len':
                         ok &= t == 'len=%d' % r[1]
+                    elif isinstance(r, tuple) and r and r[0] == 'count':
+                        ok &= t == 'count=%d' % r[1]
+                    elif isinstance(r, tuple) and r and r[0] in ('fold', 'rfold'):
+                        ok &= t.startswith(r[0] + '=') and [x.split(':')[0] for x in t[len(r[0]) + 1:].split('+') if x] == [item(i) for i in r[1]]
                     elif isinstance(r, tuple):
                         ok &= [x.split(':')[0] for x in t.split(',')] == [item(i) for i in r]
                     else:
@@ -163,7 +177,7 @@ def run(tier, seed, rng):
     res.cov['exhaustive'] = True
     res.cov['rule'] = ('enums with N = 0..8 enabled variants (plain, and with disabled variants + a type parameter; Send+Sync asserted at compile time incl. for T = Rc<u8>); '
                        'ALL histories over {next, next_back, len, nth(k), nth_back(k)} with k in {0..N+1, usize::MAX-1, usize::MAX} up to the per-enum depth listed in exhaustive_depth_by_enum, '
-                       'each followed by the observation suffix len,next,next_back,len; plus random histories of length 30 over up to 4 clones with size_hint, skip(k).next() and step_by(k); '
+                       'each followed by the observation suffix len,fold,rfold,count,last (on a copy),next,next_back,len; plus random histories of length 30 over up to 4 clones with size_hint, skip(k).next() and step_by(k); '
                        'run in the dev profile (overflow checks on) and the release profile; compared with the Lean machine and with a Python reference deque; '
                        'distinct = (enum, depth class) + number of random histories')
     c0 = generate('quick', random.Random(seed), 'debug')
